@@ -29,6 +29,22 @@ const (
 	mCompressedInfinity byte = 0b01 << 6
 )
 
+// ErrInvalidInfinityEncoding is returned when the payload of a point at infinity encoding is not zero
+var ErrInvalidInfinityEncoding = errors.New("invalid infinity point encoding")
+
+// isZeroed checks that the provided bytes are at 0
+func isZeroed(firstByte byte, buf []byte) bool {
+	if firstByte != 0 {
+		return false
+	}
+	for _, b := range buf {
+		if b != 0 {
+			return false
+		}
+	}
+	return true
+}
+
 // Encoder writes stark-curve object values to an output stream
 type Encoder struct {
 	w   io.Writer
@@ -579,6 +595,9 @@ func (p *G1Affine) setBytes(buf []byte, subGroupCheck bool) (int, error) {
 
 	// if infinity is encoded in the metadata, we don't need to read the buffer
 	if mData == mCompressedInfinity {
+		if !isZeroed(buf[0] & ^mMask, buf[1:SizeOfG1AffineCompressed]) {
+			return 0, ErrInvalidInfinityEncoding
+		}
 		p.X.SetZero()
 		p.Y.SetZero()
 		return SizeOfG1AffineCompressed, nil
@@ -710,6 +729,9 @@ func (p *G1Affine) unsafeSetCompressedBytes(buf []byte) (isInfinity bool, err er
 	mData := buf[0] & mMask
 
 	if mData == mCompressedInfinity {
+		if !isZeroed(buf[0] & ^mMask, buf[1:SizeOfG1AffineCompressed]) {
+			return isInfinity, ErrInvalidInfinityEncoding
+		}
 		p.X.SetZero()
 		p.Y.SetZero()
 		isInfinity = true
